@@ -167,7 +167,11 @@ int xmp_smix_channel_pan(xmp_context opaque, int chn, int pan)
 	struct module_data *m = &ctx->m;
 	struct channel_data *xc;
 
-	if (chn >= smix->chn || pan < 0 || pan > 255) {
+	if (ctx->state < XMP_STATE_PLAYING) {
+		return -XMP_ERROR_STATE;
+	}
+
+	if (chn >= smix->chn || chn < 0 || pan < 0 || pan > 255) {
 		return -XMP_ERROR_INVALID;
 	}
 
